@@ -98,6 +98,10 @@ fn exec(b: &mut N, op: &[&str]) -> Option<String> {
             Some(x) => format!("some {}", x),
             None => "none".into(),
         },
+        "nth" => match bytes::buf::IntoIter::new(&mut *b).nth(num(1)?) {
+            Some(x) => format!("some {}", x),
+            None => "none".into(),
+        },
         "read" => {
             let mut dst = vec![0u8; num(1)?];
             match (&mut *b).reader().read(&mut dst) {
@@ -286,7 +290,7 @@ fn cursor_cases(rng: &mut Rng, thorough: bool) {
     for _ in 0..n_random {
         trees.push(gen_tree(rng, 4));
     }
-    let consuming = ["adv", "copy", "trycopy", "tobytes", "read", "consume"];
+    let consuming = ["adv", "copy", "trycopy", "tobytes", "read", "consume", "nth"];
     for (t, len) in &trees {
         // observation-only script, with vec widths crossing Take's LEN = 16
         let mut ops = observe_ops();
@@ -317,7 +321,7 @@ fn cursor_cases(rng: &mut Rng, thorough: bool) {
                     3 => format!("tobytes {}", n),
                     4 => format!("read {}", n + 1),
                     5 => format!("consume {}", n),
-                    6 => "next".to_string(),
+                    6 => if rng.chance(1, 3) { format!("nth {}", rng.below(6)) } else { "next".to_string() },
                     7 => format!("vec {}", rng.pick(&[1usize, 2, 5, 16, 17, 40])),
                     8 => format!("setlimit {}", rng.below(*len as u64 + 2)),
                     _ => "chunk".to_string(),
